@@ -11,10 +11,10 @@ Definition w_incdec : expr :=
 Definition w_incdec_env : env :=
   env_of [("x", VFloat (FFin (Qmake 1 2))); ("y", VFloat (FFin (Qmake 6 5)))] [].
 
-Lemma remove_incdec_float_refuted :
+Lemma prefix_remove_incdec_float_refuted :
   exists en e, env_ok en /\ typeof e = Some TBool /\
-    print_expr e = "x+1 > y" /\ print_expr (simplify_bool e) = "x >= y" /\
-    eval en e = Some (RVal (VBool true), []) /\ eval en (simplify_bool e) = Some (RVal (VBool false), []).
+    print_expr e = "x+1 > y" /\ print_expr (simplify_bool_prefix e) = "x >= y" /\
+    eval en e = Some (RVal (VBool true), []) /\ eval en (simplify_bool_prefix e) = Some (RVal (VBool false), []).
 Proof.
   exists w_incdec_env, w_incdec. split; [apply env_of_ok|]. vm_compute. repeat split.
 Qed.
@@ -23,10 +23,10 @@ Definition w_octal : expr :=
   EBinary OLAnd (EBinary OGt (EIdent "x" TInt) (ELit LInt "8" TInt)) (EBinary OLt (EIdent "x" TInt) (ELit LInt "010" TInt)).
 Definition w_octal_env : env := env_of [("x", VInt 9)] [].
 
-Lemma fold_ranges_octal_refuted :
+Lemma prefix_fold_ranges_octal_refuted :
   exists en e, env_ok en /\ typeof e = Some TBool /\
-    print_expr e = "x > 8 && x < 010" /\ print_expr (simplify_bool e) = "x == 9" /\
-    eval en e = Some (RVal (VBool false), []) /\ eval en (simplify_bool e) = Some (RVal (VBool true), []).
+    print_expr e = "x > 8 && x < 010" /\ print_expr (simplify_bool_prefix e) = "x == 9" /\
+    eval en e = Some (RVal (VBool false), []) /\ eval en (simplify_bool_prefix e) = Some (RVal (VBool true), []).
 Proof.
   exists w_octal_env, w_octal. split; [apply env_of_ok|]. vm_compute. repeat split.
 Qed.
@@ -384,8 +384,8 @@ Section Rules.
         fold (cmp_Z repl z z0). fold (cmp_Z cmp z (zop rop z0)). rewrite F2. reflexivity.
   Qed.
 
-  Lemma remove_incdec_sound e e' t :
-    remove_incdec e = Some e' -> typeof e = Some t -> incdec_guard e = true -> rule_ok en e e' t.
+  Lemma remove_incdec_prefix_sound e e' t :
+    remove_incdec_prefix e = Some e' -> typeof e = Some t -> incdec_guard e = true -> rule_ok en e e' t.
   Proof.
     intros H T G. unfold incdec_guard in G. rewrite H in G.
     destruct e as [| | | |o X Y| | |]; try discriminate.
@@ -432,25 +432,30 @@ Section Rules.
              end; try discriminate; inversion H; subst; repeat split; auto; lia.
   Qed.
 
-  Lemma fold_ranges_sound hf e e' t :
-    fold_ranges hf e = Some e' -> typeof e = Some t -> (has_floats e = true -> hf = true) ->
-    fold_guard hf e = true -> rule_ok en e e' t.
+  (* the part of foldRanges' correctness that does not depend on how the bounds were read *)
+  Lemma fold_core eo lo ro lx s1 t1 s2 t2 c1 c2 e' t :
+    side_effect_free lx = true -> go_int_lit s1 = Some c1 -> go_int_lit s2 = Some c2 -> (0 <= c1)%Z ->
+    match eo with
+    | OLAnd =>
+        match table_find and_table lo ro (c2 - c1) with
+        | Some delta => Some (EBinary OEq lx (set_lit_text (ELit LInt s1 t1) (dec_of_Z (c1 + delta))))
+        | None => None
+        end
+    | OLOr =>
+        match table_find or_table lo ro (c2 - c1) with
+        | Some delta => Some (EBinary ONe lx (set_lit_text (ELit LInt s1 t1) (dec_of_Z (c1 + delta))))
+        | None => None
+        end
+    | _ => None
+    end = Some e' ->
+    typeof (EBinary eo (EBinary lo lx (ELit LInt s1 t1)) (EBinary ro lx (ELit LInt s2 t2))) = Some t ->
+    (has_floats (EBinary eo (EBinary lo lx (ELit LInt s1 t1)) (EBinary ro lx (ELit LInt s2 t2))) = true -> false = true) ->
+    rule_ok en (EBinary eo (EBinary lo lx (ELit LInt s1 t1)) (EBinary ro lx (ELit LInt s2 t2))) e' t.
   Proof.
-    intros H T HF G. unfold fold_guard in G. rewrite H in G.
-    unfold fold_ranges in H. destruct hf; [discriminate|].
-    destruct e as [| | | |eo L Rr| | |]; try discriminate.
-    destruct L as [| | | |lo lx ly| | |]; try discriminate.
-    destruct Rr as [| | | |ro rx ry| | |]; try discriminate.
-    apply andb_true_iff in G as [G1 G2].
-    destruct (decimal_lit_inv _ G1) as (s1 & t1 & c1 & -> & P1 & I1).
-    destruct (decimal_lit_inv _ G2) as (s2 & t2 & c2 & -> & P2 & I2).
-    destruct (side_effect_free lx && side_effect_free rx && expr_eqb lx rx) eqn:C; [|discriminate].
-    apply andb_true_iff in C as [C E]. apply andb_true_iff in C as [S _]. apply expr_eqb_eq in E. subst rx.
-    simpl int64val in H. rewrite P1, P2 in H.
+    intros S I1 I2 N1 H T HF.
     assert (NF : has_floats (EBinary eo (EBinary lo lx (ELit LInt s1 t1)) (EBinary ro lx (ELit LInt s2 t2))) = false).
     { match goal with |- ?x = false => destruct x eqn:Hx; auto; discriminate (HF eq_refl) end. }
     destruct (side_effect_free_pure en lx S) as [r Hr].
-    pose proof (parse_int_base10_nonneg _ _ P1) as N1.
     (* typing *)
     destruct (typeof_binary _ _ _ _ T) as (tL & tR & TL & TR & Bt).
     destruct (typeof_binary _ _ _ _ TL) as (ta & tb & Ta & Tb & BL).
@@ -504,6 +509,62 @@ Section Rules.
       inversion H; subst e'. simpl set_lit_text.
       apply (Main or_table delta ONe); auto. intros z. simpl. eapply or_table_sound; eauto.
   Qed.
+
+  Lemma fold_ranges_prefix_sound hf e e' t :
+    fold_ranges_prefix hf e = Some e' -> typeof e = Some t -> (has_floats e = true -> hf = true) ->
+    fold_guard hf e = true -> rule_ok en e e' t.
+  Proof.
+    intros H T HF G. unfold fold_guard in G. rewrite H in G.
+    unfold fold_ranges_prefix, fold_ranges_v in H. destruct hf; [discriminate|].
+    destruct e as [| | | |eo L Rr| | |]; try discriminate.
+    destruct L as [| | | |lo lx ly| | |]; try discriminate.
+    destruct Rr as [| | | |ro rx ry| | |]; try discriminate.
+    apply andb_true_iff in G as [G1 G2].
+    destruct (decimal_lit_inv _ G1) as (s1 & t1 & c1 & -> & P1 & I1).
+    destruct (decimal_lit_inv _ G2) as (s2 & t2 & c2 & -> & P2 & I2).
+    destruct (side_effect_free lx && side_effect_free rx && expr_eqb lx rx) eqn:C; [|discriminate].
+    apply andb_true_iff in C as [C E]. apply andb_true_iff in C as [S _]. apply expr_eqb_eq in E. subst rx.
+    simpl int64val_prefix in H. rewrite P1, P2 in H.
+    eapply fold_core; eauto. eapply parse_int_base10_nonneg; eauto.
+  Qed.
+
+  (* ---- the current routines (after the fixes): no guard is needed ---- *)
+  Lemma remove_incdec_sound hf e e' t :
+    remove_incdec hf e = Some e' -> typeof e = Some t -> (has_floats e = true -> hf = true) -> rule_ok en e e' t.
+  Proof.
+    unfold remove_incdec. destruct hf; [discriminate|]. intros H T HF.
+    apply remove_incdec_prefix_sound; auto. unfold incdec_guard. rewrite H.
+    destruct e as [| | | |o X Y| | |]; try reflexivity.
+    destruct (is_float_ty (typeof X)) eqn:F; auto.
+    assert (false = true) by (apply HF; rewrite has_floats_binary, F; reflexivity). discriminate.
+  Qed.
+
+  Lemma int64val_inv e c : int64val e = Some c ->
+    exists s t, e = ELit LInt s t /\ go_int_lit s = Some c /\ (0 <= c)%Z.
+  Proof.
+    destruct e as [|k s t| | | | | |]; simpl; try discriminate. destruct k; try discriminate.
+    destruct (go_int_lit s) as [z|] eqn:G; [|discriminate].
+    destruct (z <=? int64_max)%Z; [|discriminate]. intros H; inversion H; subst.
+    exists s, t. repeat split; auto.
+    unfold go_int_lit in G. destruct (match strip_us s with EmptyString => _ | String _ _ => _ end); simpl in G; [|discriminate].
+    inversion G. apply N2Z.is_nonneg.
+  Qed.
+
+  Lemma fold_ranges_sound hf e e' t :
+    fold_ranges hf e = Some e' -> typeof e = Some t -> (has_floats e = true -> hf = true) -> rule_ok en e e' t.
+  Proof.
+    intros H T HF. unfold fold_ranges, fold_ranges_v in H. destruct hf; [discriminate|].
+    destruct e as [| | | |eo L Rr| | |]; try discriminate.
+    destruct L as [| | | |lo lx ly| | |]; try discriminate.
+    destruct Rr as [| | | |ro rx ry| | |]; try discriminate.
+    destruct (side_effect_free lx && side_effect_free rx && expr_eqb lx rx) eqn:C; [|discriminate].
+    apply andb_true_iff in C as [C E]. apply andb_true_iff in C as [S _]. apply expr_eqb_eq in E. subst rx.
+    destruct (int64val ly) as [c1|] eqn:V1; [|discriminate].
+    destruct (int64val ry) as [c2|] eqn:V2; [|discriminate].
+    destruct (int64val_inv _ _ V1) as (s1 & t1 & -> & I1 & N1).
+    destruct (int64val_inv _ _ V2) as (s2 & t2 & -> & I2 & N2).
+    eapply fold_core; eauto.
+  Qed.
 End Rules.
 
 (* ---- one post-order step, then the whole traversal ---- *)
@@ -516,26 +577,40 @@ Proof.
   intros h. rewrite (E2 h). apply E1.
 Qed.
 
-Lemma rewrite1_sound en (Hen : env_ok en) hf e t :
+Fixpoint has_floats_list (l : list expr) : bool :=
+  match l with [] => false | x :: r => has_floats x || has_floats_list r end.
+
+(* The traversal proof is written once, for any pair of (removeIncDec, int64val) routines whose rewrites are
+   sound at a node under node-level guards [g1], [g2]. *)
+Section Generic.
+  Variable en : env.
+  Hypothesis Hen : env_ok en.
+  Variable incdec : bool -> expr -> option expr.
+  Variable i64 : expr -> option Z.
+  Variables g1 g2 : bool -> expr -> bool.
+  Hypothesis incdec_ok : forall hf e e' t,
+    incdec hf e = Some e' -> typeof e = Some t -> (has_floats e = true -> hf = true) -> g1 hf e = true -> rule_ok en e e' t.
+  Hypothesis fold_ok : forall hf e e' t,
+    fold_ranges_v i64 hf e = Some e' -> typeof e = Some t -> (has_floats e = true -> hf = true) -> g2 hf e = true -> rule_ok en e e' t.
+
+Lemma rewrite1_sound hf e t :
   typeof e = Some t -> (has_floats e = true -> hf = true) ->
-  incdec_guard e = true -> fold_guard hf e = true -> rule_ok en e (rewrite1 hf e) t.
+  g1 hf e = true -> g2 hf e = true -> rule_ok en e (rewrite1_v incdec i64 hf e) t.
 Proof.
-  intros T HF G1 G2. unfold rewrite1, rewrite_first, or_else.
+  intros T HF G1 G2. unfold rewrite1_v, rewrite_first_v, or_else.
   destruct (double_negation e) eqn:R1; [eapply double_negation_sound; eauto|].
   destruct (negated_equals e) eqn:R2; [eapply negated_equals_sound; eauto|].
   destruct (invert_comparison hf e) eqn:R3; [eapply invert_comparison_sound; eauto|].
   destruct (combine_checks e) eqn:R4; [eapply combine_checks_sound; eauto|].
-  destruct (remove_incdec e) eqn:R5; [eapply remove_incdec_sound; eauto|].
-  destruct (fold_ranges hf e) eqn:R6; [eapply fold_ranges_sound; eauto|].
+  destruct (incdec hf e) eqn:R5; [eapply incdec_ok; eauto|].
+  destruct (fold_ranges_v i64 hf e) eqn:R6; [eapply fold_ok; eauto|].
   apply rule_ok_refl; exact T.
 Qed.
 
-Fixpoint has_floats_list (l : list expr) : bool :=
-  match l with [] => false | x :: r => has_floats x || has_floats_list r end.
 Fixpoint all_nodes_list (g : expr -> bool) (hf : bool) (l : list expr) : bool :=
-  match l with [] => true | x :: r => all_nodes g hf x && all_nodes_list g hf r end.
+  match l with [] => true | x :: r => all_nodes_v incdec i64 g hf x && all_nodes_list g hf r end.
 
-Lemma equiv_binary en o l l' r r' : equiv en l' l -> equiv en r' r -> equiv en (EBinary o l' r') (EBinary o l r).
+Lemma equiv_binary o l l' r r' : equiv en l' l -> equiv en r' r -> equiv en (EBinary o l' r') (EBinary o l r).
 Proof.
   intros El Er h. destruct o; simpl; rewrite (El h); destruct (evalS en l h) as [[[v|] h1]|]; simpl; auto;
     try (rewrite (Er h1); reflexivity); destruct v as [| | | |[]| |]; auto; rewrite (Er h1); reflexivity.
@@ -545,31 +620,31 @@ Lemma has_floats_binary_eq o l r :
   has_floats (EBinary o l r) = is_float_ty (typeof l) || is_float_ty (typeof r) || has_floats l || has_floats r.
 Proof. reflexivity. Qed.
 
-Lemma simp_unfold hf e : simp hf e = rewrite1 hf (rebuild hf e).
+Lemma simp_unfold hf e : simp_v incdec i64 hf e = rewrite1_v incdec i64 hf (rebuild_v incdec i64 hf e).
 Proof. destruct e; reflexivity. Qed.
 
 Lemma all_nodes_unfold g hf e :
-  all_nodes g hf e =
-  g (rebuild hf e) &&
+  all_nodes_v incdec i64 g hf e =
+  g (rebuild_v incdec i64 hf e) &&
   match e with
   | EIdent _ _ | ELit _ _ _ => true
-  | EParen x | EUnary _ x | ESliceAll x => all_nodes g hf x
-  | EBinary _ l r => all_nodes g hf l && all_nodes g hf r
+  | EParen x | EUnary _ x | ESliceAll x => all_nodes_v incdec i64 g hf x
+  | EBinary _ l r => all_nodes_v incdec i64 g hf l && all_nodes_v incdec i64 g hf r
   | ECall _ args => all_nodes_list g hf args
-  | EIndex a i => all_nodes g hf a && all_nodes g hf i
+  | EIndex a i => all_nodes_v incdec i64 g hf a && all_nodes_v incdec i64 g hf i
   end.
 Proof.
   destruct e; try reflexivity.
-  change (all_nodes g hf (ECall f args)) with
-    (g (rebuild hf (ECall f args)) &&
-     (fix go (l : list expr) : bool := match l with [] => true | x :: r => all_nodes g hf x && go r end) args).
+  change (all_nodes_v incdec i64 g hf (ECall f args)) with
+    (g (rebuild_v incdec i64 hf (ECall f args)) &&
+     (fix go (l : list expr) : bool := match l with [] => true | x :: r => all_nodes_v incdec i64 g hf x && go r end) args).
   f_equal. induction args as [|x r IH]; simpl; auto. rewrite <- IH. reflexivity.
 Qed.
 
-Definition node_ih (en : env) (hf : bool) (e : expr) : Prop :=
+Definition node_ih (hf : bool) (e : expr) : Prop :=
   forall t, typeof e = Some t -> (has_floats e = true -> hf = true) ->
-    all_nodes incdec_guard hf e = true -> all_nodes (fold_guard hf) hf e = true ->
-    rule_ok en e (simp hf e) t.
+    all_nodes_v incdec i64 (g1 hf) hf e = true -> all_nodes_v incdec i64 (g2 hf) hf e = true ->
+    rule_ok en e (simp_v incdec i64 hf e) t.
 
 Lemma typeof_list_map_typed l ts : typeof_list l = Some ts -> Forall (fun x => exists t, typeof x = Some t) l.
 Proof.
@@ -577,18 +652,18 @@ Proof.
     destruct (typeof x) eqn:Tx; try discriminate; destruct (typeof_list r) eqn:Tr; try discriminate; eauto.
 Qed.
 
-Lemma rebuild_call_ok en hf f args t :
-  Forall (node_ih en hf) args ->
+Lemma rebuild_call_ok hf f args t :
+  Forall (node_ih hf) args ->
   typeof (ECall f args) = Some t -> (has_floats (ECall f args) = true -> hf = true) ->
-  all_nodes_list incdec_guard hf args = true -> all_nodes_list (fold_guard hf) hf args = true ->
-  rule_ok en (ECall f args) (ECall f (map (simp hf) args)) t.
+  all_nodes_list (g1 hf) hf args = true -> all_nodes_list (g2 hf) hf args = true ->
+  rule_ok en (ECall f args) (ECall f (map (simp_v incdec i64 hf) args)) t.
 Proof.
   intros IH T HF A1 A2.
   change (has_floats (ECall f args)) with (has_floats_list args) in HF.
   rewrite typeof_call in T. destruct (typeof_list args) as [ts|] eqn:TL; [|discriminate].
-  assert (L : typeof_list (map (simp hf) args) = Some ts /\
-              (has_floats_list (map (simp hf) args) = true -> has_floats_list args = true) /\
-              (forall h, evalS_list en (map (simp hf) args) h = evalS_list en args h)).
+  assert (L : typeof_list (map (simp_v incdec i64 hf) args) = Some ts /\
+              (has_floats_list (map (simp_v incdec i64 hf) args) = true -> has_floats_list args = true) /\
+              (forall h, evalS_list en (map (simp_v incdec i64 hf) args) h = evalS_list en args h)).
   { clear T. revert ts TL HF A1 A2. induction IH as [|x r Hx Hr IHr]; intros ts TL HF A1 A2.
     - simpl. auto.
     - simpl in TL, A1, A2, HF. destruct (typeof x) as [tx|] eqn:Tx; [|discriminate].
@@ -609,15 +684,15 @@ Proof.
   - intros h. rewrite !evalS_call, (EL' h). reflexivity.
 Qed.
 
-Lemma simp_sound en (Hen : env_ok en) hf :
+Lemma simp_v_sound hf :
   forall e t, typeof e = Some t -> (has_floats e = true -> hf = true) ->
-    all_nodes incdec_guard hf e = true -> all_nodes (fold_guard hf) hf e = true ->
-    rule_ok en e (simp hf e) t.
+    all_nodes_v incdec i64 (g1 hf) hf e = true -> all_nodes_v incdec i64 (g2 hf) hf e = true ->
+    rule_ok en e (simp_v incdec i64 hf e) t.
 Proof.
   induction e using expr_ind'; intros t0 T HF A1 A2;
     rewrite simp_unfold; rewrite all_nodes_unfold in A1, A2;
     apply andb_true_iff in A1 as [G1 A1]; apply andb_true_iff in A2 as [G2 A2];
-    (eapply rule_ok_trans; [|apply rewrite1_sound; [exact Hen| | |exact G1|exact G2]]).
+    (eapply rule_ok_trans; [|apply rewrite1_sound; [ | |exact G1|exact G2]]).
   (* each constructor leaves: rule_ok e (rebuild e); typeof (rebuild e); float flag of (rebuild e) *)
   all: try (match goal with |- rule_ok _ _ _ _ => idtac end).
   - apply rule_ok_refl; exact T.
@@ -648,8 +723,8 @@ Proof.
     destruct (IHe1 ta Ta HFl A1l A2l) as (T1 & F1 & E1). destruct (IHe2 tb Tb HFr A1r A2r) as (T2 & F2 & E2).
     split; [|split].
     + simpl. rewrite T1, T2. exact B.
-    + change (rebuild hf (EBinary o e1 e2)) with (EBinary o (simp hf e1) (simp hf e2)).
-      rewrite (has_floats_binary_eq o (simp hf e1)), (has_floats_binary_eq o e1). rewrite T1, T2, Ta, Tb. intros H.
+    + change (rebuild_v incdec i64 hf (EBinary o e1 e2)) with (EBinary o (simp_v incdec i64 hf e1) (simp_v incdec i64 hf e2)).
+      rewrite (has_floats_binary_eq o (simp_v incdec i64 hf e1)), (has_floats_binary_eq o e1). rewrite T1, T2, Ta, Tb. intros H.
       apply orb_true_iff in H as [H|H]; [apply orb_true_iff in H as [H|H]|].
       * rewrite H. reflexivity.
       * rewrite (F1 H). rewrite orb_true_r. reflexivity.
@@ -666,19 +741,19 @@ Proof.
     assert (HFl : has_floats e1 = true -> hf = true) by (intros H; apply HF; simpl; rewrite H; rewrite !orb_true_r; reflexivity).
     assert (HFr : has_floats e2 = true -> hf = true) by (intros H; apply HF; simpl; rewrite H; rewrite !orb_true_r; reflexivity).
     destruct (IHe1 ta Ta HFl A1l A2l) as (T1 & F1 & E1). destruct (IHe2 tb Tb HFr A1r A2r) as (T2 & F2 & E2).
-    change (rebuild hf (EBinary o e1 e2)) with (EBinary o (simp hf e1) (simp hf e2)).
+    change (rebuild_v incdec i64 hf (EBinary o e1 e2)) with (EBinary o (simp_v incdec i64 hf e1) (simp_v incdec i64 hf e2)).
     rewrite has_floats_binary_eq. rewrite T1, T2. intros H. apply HF. rewrite has_floats_binary_eq. rewrite Ta, Tb.
     apply orb_true_iff in H as [H|H]; [apply orb_true_iff in H as [H|H]|].
     * rewrite H. reflexivity.
     * rewrite (F1 H). rewrite orb_true_r. reflexivity.
     * rewrite (F2 H). apply orb_true_r.
   - (* ECall *)
-    assert (IH : Forall (node_ih en hf) args) by exact H.
-    exact (rebuild_call_ok en hf f args t0 IH T HF A1 A2).
-  - assert (IH : Forall (node_ih en hf) args) by exact H.
-    destruct (rebuild_call_ok en hf f args t0 IH T HF A1 A2) as (T' & F' & E'). exact T'.
-  - assert (IH : Forall (node_ih en hf) args) by exact H.
-    destruct (rebuild_call_ok en hf f args t0 IH T HF A1 A2) as (T' & F' & E'). intros Hx. apply HF. apply F'. exact Hx.
+    assert (IH : Forall (node_ih hf) args) by exact H.
+    exact (rebuild_call_ok hf f args t0 IH T HF A1 A2).
+  - assert (IH : Forall (node_ih hf) args) by exact H.
+    destruct (rebuild_call_ok hf f args t0 IH T HF A1 A2) as (T' & F' & E'). exact T'.
+  - assert (IH : Forall (node_ih hf) args) by exact H.
+    destruct (rebuild_call_ok hf f args t0 IH T HF A1 A2) as (T' & F' & E'). intros Hx. apply HF. apply F'. exact Hx.
   - (* EIndex *)
     assert (exists ta tb, typeof e1 = Some ta /\ typeof e2 = Some tb) as (ta & tb & Ta & Tb)
       by (simpl in T; destruct (typeof e1) as [[]|], (typeof e2) as [[]|]; try discriminate; eauto).
@@ -717,36 +792,92 @@ Proof.
     destruct (IHe tx Tx HF A1 A2) as (T' & F' & E'). intros Hx. apply HF. apply F'. exact Hx.
 Qed.
 
+End Generic.
+
+(* ---- instances: the current checker (no guards) and the pre-fix checker (guards) ---- *)
+Definition g_true (_ : bool) (_ : expr) : bool := true.
+
+Lemma all_nodes_true incdec i64 hf : forall e, all_nodes_v incdec i64 (g_true hf) hf e = true.
+Proof.
+  induction e using expr_ind'; simpl; auto.
+  - rewrite IHe1, IHe2. reflexivity.
+  - induction H as [|x r Hx Hr IH]; simpl; auto. rewrite Hx. exact IH.
+  - rewrite IHe1, IHe2. reflexivity.
+Qed.
+
+Lemma simp_sound en (Hen : env_ok en) hf e t :
+  typeof e = Some t -> (has_floats e = true -> hf = true) -> rule_ok en e (simp hf e) t.
+Proof.
+  intros T HF. unfold simp.
+  apply (simp_v_sound en Hen remove_incdec int64val g_true g_true); auto.
+  - intros hf0 e0 e' t0 H T0 HF0 _. eapply remove_incdec_sound; eauto.
+  - intros hf0 e0 e' t0 H T0 HF0 _. eapply fold_ranges_sound; eauto.
+  - apply all_nodes_true.
+  - apply all_nodes_true.
+Qed.
+
+Lemma simp_prefix_sound en (Hen : env_ok en) hf e t :
+  typeof e = Some t -> (has_floats e = true -> hf = true) ->
+  all_nodes_prefix incdec_guard hf e = true -> all_nodes_prefix (fold_guard hf) hf e = true ->
+  rule_ok en e (simp_prefix hf e) t.
+Proof.
+  intros T HF A1 A2. unfold simp_prefix.
+  apply (simp_v_sound en Hen incdec_prefix int64val_prefix (fun _ => incdec_guard) fold_guard); auto.
+  - intros hf0 e0 e' t0 H T0 HF0 G. eapply remove_incdec_prefix_sound; eauto.
+  - intros hf0 e0 e' t0 H T0 HF0 G. eapply fold_ranges_prefix_sound; eauto.
+Qed.
+
 (* ---- the theorems ---- *)
-Theorem bool_simplify_preserves_partial_S en e :
+(* the current checker: the full statement *)
+Theorem bool_simplify_preserves_S en e :
+  env_ok en -> well_typed e -> forall h, evalS en (simplify_bool e) h = evalS en e h.
+Proof.
+  intros Hen [t T]. unfold simplify_bool.
+  destruct (simp_sound en Hen (has_floats e) e t T (fun H => H)) as (_ & _ & E). exact E.
+Qed.
+
+Theorem bool_simplify_preserves en e :
+  env_ok en -> well_typed e -> eval en (simplify_bool e) = eval en e.
+Proof.
+  intros Hen W. unfold eval. rewrite (bool_simplify_preserves_S en e Hen W []). reflexivity.
+Qed.
+
+Theorem bool_simplify_keeps_type e t : typeof e = Some t -> typeof (simplify_bool e) = Some t.
+Proof.
+  intros T. unfold simplify_bool.
+  destruct (simp_sound (env_of [] []) (env_of_ok [] []) (has_floats e) e t T (fun H => H)) as (T' & _ & _). exact T'.
+Qed.
+
+(* the checker before the fixes: only under the two guards it lacked *)
+Theorem bool_simplify_prefix_preserves_partial_S en e :
   env_ok en -> well_typed e -> no_float_incdec e = true -> decimal_bounds e = true ->
-  forall h, evalS en (simplify_bool e) h = evalS en e h.
+  forall h, evalS en (simplify_bool_prefix e) h = evalS en e h.
 Proof.
-  intros Hen [t T] G1 G2. unfold simplify_bool.
-  destruct (simp_sound en Hen (has_floats e) e t T (fun H => H) G1 G2) as (_ & _ & E). exact E.
+  intros Hen [t T] G1 G2. unfold simplify_bool_prefix.
+  destruct (simp_prefix_sound en Hen (has_floats e) e t T (fun H => H) G1 G2) as (_ & _ & E). exact E.
 Qed.
 
-Theorem bool_simplify_preserves_partial en e :
+Theorem bool_simplify_prefix_preserves_partial en e :
   env_ok en -> well_typed e -> no_float_incdec e = true -> decimal_bounds e = true ->
-  eval en (simplify_bool e) = eval en e.
+  eval en (simplify_bool_prefix e) = eval en e.
 Proof.
-  intros Hen W G1 G2. unfold eval. rewrite (bool_simplify_preserves_partial_S en e Hen W G1 G2 []). reflexivity.
+  intros Hen W G1 G2. unfold eval. rewrite (bool_simplify_prefix_preserves_partial_S en e Hen W G1 G2 []). reflexivity.
 Qed.
 
-Theorem bool_simplify_keeps_type e t :
-  typeof e = Some t -> no_float_incdec e = true -> decimal_bounds e = true -> typeof (simplify_bool e) = Some t.
-Proof.
-  intros T G1 G2. unfold simplify_bool.
-  destruct (simp_sound (env_of [] []) (env_of_ok [] []) (has_floats e) e t T (fun H => H) G1 G2) as (T' & _ & _). exact T'.
-Qed.
-
-Theorem bool_simplify_preserves_refuted :
-  ~ (forall en e, env_ok en -> well_typed e -> eval en (simplify_bool e) = eval en e).
+Theorem bool_simplify_prefix_preserves_refuted :
+  ~ (forall en e, env_ok en -> well_typed e -> eval en (simplify_bool_prefix e) = eval en e).
 Proof.
   intros H. specialize (H w_octal_env w_octal (env_of_ok _ _)).
   assert (W : well_typed w_octal) by (exists TBool; reflexivity).
   specialize (H W). vm_compute in H. discriminate.
 Qed.
+
+(* the two refuting expressions are left alone by the current checker *)
+Example fixed_witnesses_unchanged :
+  simplify_bool w_incdec = w_incdec /\ check_expr w_incdec = None /\
+  simplify_bool w_octal = w_octal /\ check_expr w_octal = None /\
+  print_expr (simplify_bool (EBinary OLAnd (EBinary OGt (EIdent "x" TInt) (ELit LInt "010" TInt)) (EBinary OLt (EIdent "x" TInt) (ELit LInt "0xA" TInt)))) = "x == 9".
+Proof. vm_compute. repeat split. Qed.
 
 (* the guards are satisfiable on an expression every part of which is rewritten *)
 Definition w_all_rules : expr :=
@@ -760,5 +891,6 @@ Definition w_all_rules : expr :=
 Example guards_satisfiable :
   typeof w_all_rules = Some TBool /\ no_float_incdec w_all_rules = true /\ decimal_bounds w_all_rules = true /\
   print_expr w_all_rules = "!(x < 3) && x+1 > y || (x > 1 && x < 3 || ((x > y || x == y) || !!(!k) == !l))" /\
+  print_expr (simplify_bool_prefix w_all_rules) = "x >= 3 && x >= y || (x == 2 || ((x >= y) || k == l))" /\
   print_expr (simplify_bool w_all_rules) = "x >= 3 && x >= y || (x == 2 || ((x >= y) || k == l))".
 Proof. vm_compute. repeat split. Qed.
